@@ -46,6 +46,9 @@ allk, seen = [], set()
 for kp in sorted(glob.glob(os.path.join(ROOT, "known_findings.d", "*.json"))):
     for k in json.load(open(kp)):
         if k["id"] not in seen:
-            seen.add(k["id"]); allk.append(k)
+            seen.add(k["id"])
+            if k.get("status") == "fixed":
+                k["record"] = "fixed: property=%s %s %s" % (k["property"], k.get("commit", "?"), k["what"])
+            allk.append(k)
 json.dump(allk, open(os.path.join(ROOT, "known_findings.json"), "w"), indent=1)
 print("claimed", len(claimed), "not_applicable", len(na), "hook commits", len(hook_commits), "findings", len(allk))
